@@ -61,6 +61,8 @@ def corpus():
             S + ["beh c 0 S:s", "beh m 0 P:s S:s", "conn 0", "conn 1", "conn 2", "req 0", "t 0", "app R:1", "app K", "app I", "app U:1", "end"],
             # msg_process returns an error (back-off), then kill with requests pending
             S + ["beh m -1", "conn 0", "req 0", "req 0", "t 0", "req 0", "kill 0", "t 0", "end"],
+            # the client goes away between its request and the server's response: accept, destroyed - no closed
+            S + ["conn 0", "connx 1", "beh a -13", "connx 2", "beh a 0 R:s", "connx 3", "app I", "app U:3", "end"],
             # nesting cut at depth 1
             S + ["depth 1", "beh m 0 D:s", "beh l 1 D:s R:s", "conn 0", "req 0", "t 0", "jobs", "end"],
             # closed disconnects itself re-entrantly
@@ -115,7 +117,7 @@ def gen_case(rng, nops):
             acts = [gen_action(rng, nconn + 1, True) for _ in range(rng.choice([0, 1, 1, 2, 3]))]
             ops.append(("beh %s %d " % (k, ret) + " ".join(acts)).strip())
         elif r < 0.25 or nconn == 0:
-            ops.append("conn %d" % rng.randrange(slots))
+            ops.append("%s %d" % ("connx" if rng.random() < 0.08 else "conn", rng.randrange(slots)))
             nconn += 1
         elif r < 0.45:
             s = rng.randrange(slots)
